@@ -11,9 +11,12 @@ import (
 	"os"
 	"os/exec"
 	"path/filepath"
+	"strings"
+	"sync"
 	"syscall"
 	"time"
 
+	"mosn.io/api"
 	v2 "mosn.io/mosn/pkg/config/v2"
 
 	. "vh/vhlib"
@@ -38,9 +41,16 @@ func c11TwoProcess(run *Run, dir string) {
 	build.Env = append(os.Environ(), "GOFLAGS=-mod=mod", "GOPROXY=off", "GOSUMDB=off", "GOTOOLCHAIN=local")
 	if out, err := build.CombinedOutput(); err != nil {
 		run.Sum.Extra["two_process_sigterm"] = "cmd/mosn did not build: " + string(out[:min(len(out), 400)])
+		run.Sum.Extra["two_process_sighup"] = "skipped: cmd/mosn did not build"
 		return
 	}
 	defer os.Remove(bin)
+	defer func() {
+		if r := recover(); r != nil {
+			run.Sum.Extra["two_process_error"] = fmt.Sprint(r)
+		}
+	}()
+	c11TwoProcessUpgrade(run, dir, bin)
 	var results []procResult
 	for _, cs := range []struct {
 		name            string
@@ -164,5 +174,179 @@ func c11TwoProcess(run *Run, dir string) {
 		results = append(results, res)
 	}
 	run.Sum.Extra["two_process_sigterm"] = results
-	run.Sum.Extra["two_process_sighup"] = "not run: the hot-upgrade hand-off (exec of the new binary, fd passing) is not explored by this harness"
+}
+
+// ---------------------------------------------------------------------------------------------
+// SIGHUP: the old process fork-execs a new one, passes the listening sockets, stops accepting, hands its xprotocol
+// connections over and exits.  Closed-loop clients keep sending on existing and on new connections throughout; recorded:
+// per client class how many requests succeeded / failed before and after the signal.  Exploration only.
+
+type loopStats struct {
+	Class        string `json:"client"`
+	OKBefore     int    `json:"ok_before_sighup"`
+	FailBefore   int    `json:"failed_before_sighup"`
+	OKAfter      int    `json:"ok_after_sighup"`
+	FailAfter    int    `json:"failed_after_sighup"`
+	Reconnects   int    `json:"reconnects"`
+	FirstFailMs  int    `json:"first_failure_ms_after_sighup,omitempty"`
+	FirstFailErr string `json:"first_failure,omitempty"`
+}
+
+func c11TwoProcessUpgrade(run *Run, dir, bin string) {
+	res := map[string]interface{}{}
+	defer func() { run.Sum.Extra["two_process_sighup"] = res }()
+	boltUp, closeB := startUpstream()
+	defer closeB()
+	httpUp, closeH := startHTTPUpstream()
+	defer closeH()
+	pdir := filepath.Join(dir, "hup")
+	os.MkdirAll(filepath.Join(pdir, "conf"), 0o755)
+	bl, brc, bcl := listenerFor("bolt-l", fmt.Sprintf("127.0.0.1:%d", freePort()), "bolt", "r-bolt", "up-bolt", boltUp)
+	hl, hrc, hcl := listenerFor("http-l", fmt.Sprintf("127.0.0.1:%d", freePort()), "http1", "r-http", "up-http", httpUp)
+	cfg := &v2.MOSNConfig{
+		Pid: filepath.Join(pdir, "mosn.pid"), UDSDir: pdir,
+		Servers: []v2.ServerConfig{{DefaultLogPath: filepath.Join(pdir, "default.log"), DefaultLogLevel: "INFO",
+			GracefulTimeout: api.DurationConfig{Duration: time.Second},
+			Routers:         []*v2.RouterConfiguration{brc, hrc}, Listeners: []v2.Listener{bl, hl}}},
+		ClusterManager: v2.ClusterManagerConfig{Clusters: []v2.Cluster{bcl, hcl}},
+	}
+	b, _ := json.MarshalIndent(cfg, "", " ")
+	cpath := filepath.Join(pdir, "conf", "mosn.json")
+	os.WriteFile(cpath, b, 0o644)
+	cmd := exec.Command(bin, "start", "-c", cpath, "--drain-time-s", "2")
+	cmd.Dir = pdir
+	logf, _ := os.Create(filepath.Join(pdir, "stdout.log"))
+	defer logf.Close()
+	cmd.Stdout, cmd.Stderr = logf, logf
+	if err := cmd.Start(); err != nil {
+		res["skipped"] = "start failed: " + err.Error()
+		return
+	}
+	defer exec.Command("pkill", "-9", "-f", bin).Run() // the new process is not our child
+	oldExited := make(chan struct{})
+	var oldExitAt time.Time
+	go func() { cmd.Wait(); oldExitAt = time.Now(); close(oldExited) }()
+	for _, a := range []string{bl.AddrConfig, hl.AddrConfig} {
+		up := false
+		for w := 0; w < 200 && !up; w++ {
+			if c, err := dialLocal(a, 100*time.Millisecond); err == nil {
+				c.Close()
+				up = true
+			} else {
+				time.Sleep(40 * time.Millisecond)
+			}
+		}
+		if !up {
+			res["skipped"] = "the mosn process did not start listening"
+			cmd.Process.Kill()
+			return
+		}
+	}
+	time.Sleep(1500 * time.Millisecond) // the reconfigure listener of the old process starts one second after start
+
+	var sighupAt time.Time
+	var hupMu sync.Mutex
+	after := func() (bool, int) {
+		hupMu.Lock()
+		defer hupMu.Unlock()
+		if sighupAt.IsZero() {
+			return false, 0
+		}
+		return true, int(time.Since(sighupAt) / time.Millisecond)
+	}
+	stop := make(chan struct{})
+	var wg sync.WaitGroup
+	var stats []*loopStats
+	record := func(st *loopStats, ok bool, errText string) {
+		aft, ms := after()
+		switch {
+		case ok && !aft:
+			st.OKBefore++
+		case ok:
+			st.OKAfter++
+		case !aft:
+			st.FailBefore++
+		default:
+			st.FailAfter++
+			if st.FirstFailErr == "" {
+				st.FirstFailMs, st.FirstFailErr = ms, errText
+			}
+		}
+	}
+	loop := func(class, proto, addr string, persistent bool) {
+		st := &loopStats{Class: class}
+		stats = append(stats, st)
+		wg.Add(1)
+		go func() {
+			defer wg.Done()
+			var c client
+			id := 10
+			origin := time.Now()
+			ms := func() int { return int(time.Since(origin) / time.Millisecond) }
+			for {
+				select {
+				case <-stop:
+					if c != nil {
+						c.close()
+					}
+					return
+				default:
+				}
+				if c == nil {
+					nc, err := newClient(proto, addr, 500*time.Millisecond)
+					if err != nil {
+						record(st, false, "connect: "+err.Error())
+						time.Sleep(100 * time.Millisecond)
+						continue
+					}
+					c = nc
+				}
+				id++
+				p := &reqPlan{Up: 20}
+				c.do(id, p, ms)
+				record(st, p.OK, "no reply on "+map[bool]string{true: "the existing", false: "a new"}[persistent]+" connection")
+				if !p.OK || !persistent {
+					c.close()
+					c = nil
+					if persistent {
+						st.Reconnects++
+					}
+				}
+				time.Sleep(40 * time.Millisecond)
+			}
+		}()
+	}
+	loop("bolt, long-lived connection", "bolt", bl.AddrConfig, true)
+	loop("bolt, long-lived connection (2)", "bolt", bl.AddrConfig, true)
+	loop("http1, keep-alive connection", "http1", hl.AddrConfig, true)
+	loop("bolt, new connection per request", "bolt", bl.AddrConfig, false)
+	loop("http1, new connection per request", "http1", hl.AddrConfig, false)
+
+	time.Sleep(1500 * time.Millisecond)
+	hupMu.Lock()
+	sighupAt = time.Now()
+	hupMu.Unlock()
+	cmd.Process.Signal(syscall.SIGHUP)
+	exited := false
+	select {
+	case <-oldExited:
+		exited = true
+	case <-time.After(75 * time.Second):
+	}
+	if exited {
+		time.Sleep(2 * time.Second) // keep the clients going against the new process
+	}
+	close(stop)
+	wg.Wait()
+	res["clients"] = stats
+	res["old_process_exited"] = exited
+	if exited {
+		res["old_process_exit_ms_after_sighup"] = int(oldExitAt.Sub(sighupAt) / time.Millisecond)
+	}
+	if out, err := exec.Command("pgrep", "-f", bin).Output(); err == nil {
+		res["processes_running_at_the_end"] = len(strings.Fields(string(out)))
+	}
+	if !exited {
+		cmd.Process.Kill()
+	}
 }
